@@ -150,8 +150,16 @@ bool verify_core(const KindInfo& K, const Site& s, Rounding_Dir dir, const char*
 // They are first executed in a forked child so that the engine survives, keys the sanitizer report precisely
 // (C11.ub.<op>.<type>:<class>) and goes on with the enumeration.  Predicates are on the decoded operands.
 static bool risky_bin(const KindInfo&, const char*, const XQ&, const XQ&) { return false; }
-static bool risky_un(const KindInfo&, const char*, const XQ&) { return false; }
-static bool risky_e2(const KindInfo&, const char*, const XQ&, unsigned) { return false; }
+static bool risky_un(const KindInfo& K, const char* op, const XQ& a) {
+  // isqrt_rem on a signed 32/64-bit type: `q = s + t` overflows for radicands >= 2^(bits-2) (checked_int_inlines.hh:1543)
+  if (K.is_int && K.is_signed && K.bits >= 32 && strcmp(op, "sqrt") == 0 && a.fin() && a.q * 4 > K.lim.hi) return true;
+  return false;
+}
+static bool risky_e2(const KindInfo& K, const char* op, const XQ&, unsigned e) {
+  // smod_2exp_{signed,unsigned}_int: `Type(1) << (exp - 1)` with exp == 0 (checked_int_inlines.hh:1480,1498)
+  if (K.is_int && e == 0 && strcmp(op, "smod_2exp") == 0) return true;
+  return false;
+}
 
 static bool probe_report(const Site& s, const char* cls, const std::string& operands, const std::string& why) {
   hx::checked();
@@ -239,7 +247,9 @@ void run_2exp_core(const KindInfo& K, const char* op, E2Run run, Ex (*exact)(con
       unsigned e = exps[j];
       if (!K.is_int && e > 100000) continue;    // GMP kinds: 2^e must fit in memory
       if (K.is_flt && e >= 64) continue;         // floats: exp < 64 is an entry PPL_ASSERT of the *_2exp functions (precondition)
-      Ex ex = exact(ax, e);
+      // native integers (<= 64 bits): every comparison of the exact result with a value of the type is the same for
+      // 2^e and 2^200 once e >= 200, so the oracle works with min(e, 200) (2^(2^32-1) does not fit in memory)
+      Ex ex = exact(ax, (K.is_int && e > 200) ? 200 : e);
       if (!K.in_contract(ex.u)) { ++skipped; continue; }
       const char* cls = intern(exp_class(K, e) + "," + (ax.fin() ? (::sgn(ax.q) < 0 ? "neg" : ::sgn(ax.q) > 0 ? "pos" : "zero") : "special") + "," + res_class(K, ex, ax.inf()));
       Desc desc = desce(ax, e);
@@ -341,7 +351,7 @@ void run_compare_core(const KindInfo& A, const KindInfo& B, CmpRun run, SgnRun s
       hx::checked(6); done += 6;
       for (int k = 0; k < 6; ++k)
         if (o.p[k] != want[k]) hx::violation(std::string("C11.rel.") + NM[k] + "." + ty + ":" + cls, std::string(NM[k]) + "<" + ty + "/" + pol + ">(" + show(ax) + ", " + show(ay) + ") returned " + (o.p[k] ? "true" : "false"));
-      if (c != 2) { hx::checked(); ++done;
+      if (c != 2 && o.has_cmp) { hx::checked(); ++done;
         if ((o.c > 0) - (o.c < 0) != c) hx::violation(std::string("C11.rel.cmp.") + ty + ":" + cls, "cmp<" + ty + "/" + pol + ">(" + show(ax) + ", " + show(ay) + ") returned " + std::to_string(o.c)); }
     }
     if (!ax.nan()) { hx::checked(); ++done; int g = sg(xs, i); int w = ax.sgn(); if (g != w) hx::violation(std::string("C11.rel.sgn.") + A.tname + ":" + (ax.inf() ? "inf-operand" : "finite"), "sgn<" + A.kname() + ">(" + show(ax) + ") returned " + std::to_string(g)); }
@@ -374,7 +384,10 @@ static void run_case(uint64_t) {
       U[k].run();
       hx::count("i8.units_run");
     }
-    else if (profile == "wide") { int w = hx::rnd(0, 2); if (w == 0) nk::w16_case(); else if (w == 1) nk::w32_case(); else nk::w64_case(); }
+    else if (profile == "wide") {
+      switch (hx::rnd(0, 12)) { case 0: case 1: nk::w16s_case(); break; case 2: case 3: nk::w16u_case(); break; case 4: case 5: nk::w32s_case(); break; case 6: case 7: nk::w32u_case(); break;
+        case 8: case 9: nk::w64s_case(); break; case 10: case 11: nk::w64u_case(); break; default: nk::w64ll_case(); break; }
+    }
     else if (profile == "float") { int w = hx::rnd(0, 2); if (w == 0) nk::float_case_f(); else if (w == 1) nk::float_case_d(); else nk::float_case_l(); }
     else if (profile == "gmp") nk::gmp_case();
     else { fprintf(stderr, "numkernel: unknown profile '%s' (i8, wide, float, gmp)\n", profile.c_str()); exit(2); }
